@@ -36,7 +36,9 @@ FailPlaces == {"resp403", "resp500", "ps403", "ps500"} \cup XFailPlaces \cup RFa
 
 ErrExpected(kind, r) ==
   \/ ~Is2xx(r.st)
-  \/ (kind \in MsKinds /\ (r.st # 207 \/ r.body # "valid" \/ r.place \in FailPlaces \/ (r.place = "resp404" /\ kind # "sync")))
+  \* (a well-formed multi-status without any response: nothing to report for a listing, uninterpretable for a call about ONE resource)
+  \/ (kind \in MsKinds /\ r.body = "emptyms" /\ (r.st # 207 \/ kind = "ms1"))
+  \/ (kind \in MsKinds /\ r.body # "emptyms" /\ (r.st # 207 \/ r.body # "valid" \/ r.place \in FailPlaces \/ (r.place = "resp404" /\ kind # "sync")))
   \/ (kind = "getobj" /\ (r.body # "valid" \/ r.ct # "obj"))
   \/ (kind = "options" /\ r.body # "valid")
 \* the error of a non-2xx answer carries the HTTP status code, and the DAV:error condition if one was sent
